@@ -381,3 +381,32 @@ M("C24", "eff_noise operators filtered but rates not", "kill",
     "            torch.tensor(op, dtype=torch.complex128) for op in noise_model.eff_noise_opers if op is not None\n")], "BASIS-rate")
 M("C24", "twin: zero-rate pairs dropped", "twin",
   [(JL, "            for rate, op in zip(noise_model.eff_noise_rates, torch_ops)", "            for rate, op in zip(noise_model.eff_noise_rates, torch_ops) if rate > 0.0")])
+M("C26", "autosave drops an attribute and recomputes it on load", "kill",
+  [(IMPL, "        d[\"results\"] = self.results._to_abstract_repr()  # type: ignore[operator]\n        return d",
+    "        d[\"results\"] = self.results._to_abstract_repr()  # type: ignore[operator]\n        del d[\"current_interaction_matrix\"]\n        return d"),
+   (IMPL, "        self.config.monkeypatch_observables()\n\n    @staticmethod\n    def _get_autosave_filepath",
+    "        self.config.monkeypatch_observables()\n        self.current_interaction_matrix = self._get_interaction_matrix()\n\n    @staticmethod\n    def _get_autosave_filepath")], "PICKLE-whole")
+M("C26", "resume resets the sweep position", "kill",
+  [(IMPL, "        self.config.monkeypatch_observables()\n\n    @staticmethod\n    def _get_autosave_filepath",
+    "        self.config.monkeypatch_observables()\n        self._sweep_index = 0\n\n    @staticmethod\n    def _get_autosave_filepath")], "PICKLE-whole")
+M("C30", "phase derivative takes the real shortcut at phi = 0", "kill",
+  [(TE, "        self.inds = torch.tensor([1, 0], device=device)  # flips the state, for 𝜎ₓ\n\n    def __matmul__(self, vec: torch.Tensor) -> torch.Tensor:\n        vec = vec.view(vec.shape[0], *self.shape)  # add batch dimension\n        result = torch.zeros_like(vec)\n        _apply_omega_complex(result, 2, self.inds, vec, alpha=self.alpha)",
+    "        self.inds = torch.tensor([1, 0], device=device)  # flips the state, for 𝜎ₓ\n        self._apply_sigmas = _apply_omega_complex if phi.is_nonzero() else _apply_omega_real\n\n    def __matmul__(self, vec: torch.Tensor) -> torch.Tensor:\n        vec = vec.view(vec.shape[0], *self.shape)  # add batch dimension\n        result = torch.zeros_like(vec)\n        self._apply_sigmas(result, 2, self.inds, vec, alpha=self.alpha)")], "GRAD-ops")
+M("C30", "phase derivative exponent without the quarter turn", "kill",
+  [(TE, "        self.alpha = 0.5 * (omega * torch.exp(1j * (phi + torch.pi / 2))).item()", "        self.alpha = 0.5 * (omega * torch.exp(1j * (phi + torch.pi / 4))).item()")], "GRAD-ops")
+M("C30", "omega derivative forgets the factor one half", "kill",
+  [(TE, "        self.alpha = 0.5 * torch.exp(1j * phi).item()", "        self.alpha = torch.exp(1j * phi).item()")], "GRAD-ops")
+M("C30", "omega derivative real shortcut under the wrong test", "kill",
+  [(TE, "        if phi.is_nonzero():\n            self._apply_sigmas = _apply_omega_complex\n        else:  # ∂H/∂Ωₖ = 0.5σˣₖ",
+    "        if index > 0:\n            self._apply_sigmas = _apply_omega_complex\n        else:  # ∂H/∂Ωₖ = 0.5σˣₖ")], "GRAD-ops")
+M("C30", "Krylov exponential normalises its input in place", "kill",
+  [("emu_base/math/krylov_exp.py", "    v = v / initial_norm\n", "    v /= initial_norm\n")], "AUTOGRAD-inplace")
+M("C30", "forward scales the input state in place", "kill",
+  [(TE, "        res, ham = EvolveStateVector.evolve(\n            dt,\n            omegas,\n            deltas,\n            phis,\n            interaction_matrix,\n            state,",
+    "        state.mul_(1.0)\n        res, ham = EvolveStateVector.evolve(\n            dt,\n            omegas,\n            deltas,\n            phis,\n            interaction_matrix,\n            state,")], "AUTOGRAD-inplace")
+M("C31", "renormalisation guard on norm instead of norm**4", "kill",
+  [(MPSF, "        if abs(norm**4 - 1.0) > 1e-12:", "        if abs(norm - 1.0) > 1e-12:")], "APICOMPAT-norm")
+M("C31", "renormalisation guard looser than Pulser's check", "kill",
+  [(MPSF, "        if abs(norm**4 - 1.0) > 1e-12:", "        if abs(norm**4 - 1.0) > 1e-10:")], "APICOMPAT-norm")
+M("C31", "twin: stricter renormalisation guard", "twin",
+  [(MPSF, "        if abs(norm**4 - 1.0) > 1e-12:", "        if abs(norm**4 - 1.0) > 1e-13:")])
